@@ -122,6 +122,9 @@ type Property struct {
 	CrashIsViolation bool
 	// Extra adds property-specific keys to coverage after the merge (e.g. validation counts).
 	Extra func(tier string, cov map[string]any)
+	// MemLimitGB > 0 limits the address space of each worker process (sequential drivers on tiny inputs); exhausting
+	// it is reported as runaway allocation by the code under test.
+	MemLimitGB int
 	// CaseBudget is the wall-clock budget per case (default: quick 60 s, thorough 20 min).
 	CaseBudget func(tier string) time.Duration
 }
@@ -245,6 +248,12 @@ func isFlagSet(name string) bool {
 }
 
 func runWorker(p *Property, tier string, budget time.Duration) {
+	if p.MemLimitGB > 0 && os.Getenv("VERIF_NO_MEMLIMIT") == "" {
+		// bounds the address space of the worker: code under test that allocates without end (a printing loop that
+		// never advances, a structure that grows for ever) must end the worker, not the machine
+		lim := syscall.Rlimit{Cur: uint64(p.MemLimitGB) << 30, Max: uint64(p.MemLimitGB) << 30}
+		syscall.Setrlimit(syscall.RLIMIT_AS, &lim)
+	}
 	in := bufio.NewScanner(os.Stdin)
 	out := bufio.NewWriter(os.Stdout)
 	enc := json.NewEncoder(out)
@@ -362,11 +371,17 @@ func master(p *Property, tier string, n int, name func(int) string, only string,
 						stdin.Close()
 						cmd.Wait()
 						tail := errb.String()
+						whole := tail
 						if len(tail) > 1500 {
 							tail = tail[len(tail)-1500:]
 						}
 						r = Result{Index: i, Case: name(i), Crashed: true, Note: "worker died: " + tail}
 						crashed = true
+						if p.MemLimitGB > 0 && (strings.Contains(whole, "out of memory") || strings.Contains(whole, "cannot allocate memory")) {
+							// the driver calls the code under test directly on tiny inputs: exhausting 24 GB there is runaway allocation
+							r.Crashed = false
+							r.Viols = []Viol{{Sig: p.ID + "/runaway-allocation", Msg: fmt.Sprintf("the code under test allocated memory without bound (the worker process reached its limit of %d GB) in case %s", p.MemLimitGB, name(i)), Replay: map[string]any{"case": name(i)}}}
+						}
 					}
 					mu.Lock()
 					results = append(results, r)
